@@ -285,6 +285,94 @@ def growth(cx, n_columns=1):
     cx.no_panic(k, 'grow (full storage)')
 
 
+def _storage_field_order():
+    """Field order of `struct StorageN` read from the source on every run (MIR addresses fields by position)."""
+    import os
+    from .. import common
+    src = open(os.path.join(common.REPO, 'src', 'archetype', 'storage.rs')).read()
+    m = re.search(r'pub struct \$name<A: Archetype, #\(T~I,\)\*> \{(.*?)\n            \}', src, re.S)
+    if not m:
+        raise Unsupported('struct StorageN declaration not found in src/archetype/storage.rs')
+    names = []
+    for line in m.group(1).splitlines():
+        line = line.strip()
+        f = re.match(r'(?:pub(?:\(crate\))? )?(\w+): ', line)
+        if f:
+            names.append(f.group(1))
+        elif line.startswith('#(d~I'):
+            names.append('d~I')
+    return names
+
+
+def admission(cx, n_columns=1):
+    """push / push_within_capacity of StorageN for EVERY (len, capacity) admitted by Inv (C12):
+    push panics exactly at len == capacity == 2^24, calls grow only on a full storage and reaches
+    force_create only with room; push_within_capacity creates iff len < capacity, Err otherwise.
+    grow() is a modelled callee here with the contract the `growth` family discharges on the same MIR:
+    called on a full storage it returns capacity < 2^24."""
+    order = _storage_field_order()
+    for need in ('len', 'capacity', 'free_head'):
+        if need not in order:
+            raise Unsupported('StorageN has no field %s' % need)
+    cap = z3.BitVec('capacity', 64); ln = z3.BitVec('len', 64)
+    fh_end = z3.Bool('free_head_is_end'); grow_ret = z3.Bool('grow_returns')
+    pre = [z3.ULE(ln, cap), z3.ULE(cap, z3.BitVecVal(MAXCAP, 64)), z3.Implies(ln == cap, fh_end),
+           z3.Implies(ln == cap, grow_ret == z3.ULT(cap, z3.BitVecVal(MAXCAP, 64)))]
+
+    def storage():
+        st = Struct('Storage', [None] * 12)
+        st.fields[order.index('len')] = ln
+        st.fields[order.index('capacity')] = cap
+        st.fields[order.index('free_head')] = Struct('SlotIndex', [z3.BitVec('free_head_raw', 32)])
+        return st
+
+    def find(name):
+        return cx.mir.find(lambda it: it.kind == 'fn' and it.name.endswith('::' + name) and re.search(r'_1: &mut Storage%d<' % n_columns, it.header) is not None, 'Storage%d::%s' % (n_columns, name))
+
+    ext = {r'Storage\d+::<.*>::grow$': (lambda a: grow_ret), r'SlotIndex::is_free_end$': (lambda a: fh_end)}
+    full = ln == cap
+    # ---- push
+    it = find('push')
+    k = cx.kernel(stop_callees=(r'::force_create::<',), extern=ext)
+    outs = k.run(it, [Ref([storage()]), Struct('D', [])], list(pre))
+    creates = [s_ for s_ in k.stops if 'force_create' in s_[1]]
+    cx.add('push: a creating path exists', [], z3.BoolVal(len(creates) >= 1))
+    for pc, callee, args in creates:
+        cx.add('push: reaches force_create only with room (len < capacity, or a full storage after grow() succeeded)', pc, z3.Or(z3.ULT(ln, cap), z3.And(full, grow_ret)))
+    for pc, v in outs:
+        cx.add('push: returns only through force_create', pc, z3.BoolVal(False))
+    for pc, msg in k.panics:
+        cx.add('push: panics ("%s") exactly at the limit len == capacity == 2^24 — create always succeeds below 16,777,216 entities' % msg[:40], pc, z3.And(full, cap == z3.BitVecVal(MAXCAP, 64)))
+    cx.absorb(k, 'push')
+    k2 = cx.kernel(stop_callees=(r'::force_create::<', r'Storage\d+::<.*>::grow$'), extern={r'SlotIndex::is_free_end$': (lambda a: fh_end)})
+    k2.run(it, [Ref([storage()]), Struct('D', [])], list(pre))
+    grows = [s_ for s_ in k2.stops if s_[1].endswith('::grow')]
+    cx.add('push: a growing path exists', [], z3.BoolVal(len(grows) >= 1))
+    for pc, callee, args in grows:
+        cx.add('push: grow() is called only on a full storage (it wipes and rebuilds the free list)', pc, full)
+    cx.functions |= k2.interpreted
+    # the limit is really refused: some panic path is feasible at len == capacity == 2^24
+    lim = [z3.And(*(pc + [full, cap == z3.BitVecVal(MAXCAP, 64)])) for pc, msg in k.panics]
+    cx.add('push: at len == capacity == 2^24 no creating path is feasible', [full, cap == z3.BitVecVal(MAXCAP, 64)] + list(pre),
+           z3.Not(z3.Or([z3.And(*pc) for pc, c_, a_ in creates])) if creates else z3.BoolVal(True))
+    # ---- push_within_capacity
+    it = find('push_within_capacity')
+    k3 = cx.kernel(stop_callees=(r'::force_create::<',), extern=ext)
+    outs = k3.run(it, [Ref([storage()]), Struct('D', [])], list(pre))
+    creates3 = [s_ for s_ in k3.stops if 'force_create' in s_[1]]
+    cx.add('push_within_capacity: a creating path exists', [], z3.BoolVal(len(creates3) >= 1))
+    for pc, callee, args in creates3:
+        cx.add('push_within_capacity: creates only when len < capacity', pc, z3.ULT(ln, cap))
+    cx.add('push_within_capacity: a refusing path exists', [], z3.BoolVal(len(outs) >= 1))
+    for pc, v in outs:
+        is_err = isinstance(v, Enum) and v.variant == 'Err'
+        cx.add('push_within_capacity: returns without creating only when full, with Err(argument)', pc, z3.And(full, z3.BoolVal(is_err)))
+    for pc, callee, args in [s_ for s_ in k3.stops if 'force_create' not in s_[1]]:
+        cx.add('push_within_capacity: calls nothing else (%s)' % callee[:40], pc, z3.BoolVal(False))
+    cx.absorb(k3, 'push_within_capacity')
+    cx.no_panic(k3, 'push_within_capacity (Inv state)')
+
+
 FAMILIES = {
     'index_extraction': index_extraction,
     'trimmed_index': trimmed_index,
@@ -295,4 +383,5 @@ FAMILIES = {
     'slot_index_encoding': slot_index_encoding,
     'constants': constants,
     'growth': growth,
+    'admission': admission,
 }
